@@ -303,6 +303,8 @@ META = {
     "read-all is dominated by proc.wait() and by closing the parent's write ends; PopenThread.run closes its copies "
     "of the write ends before the blocking drain; tee_stdout records the raw line before any reshaping, applies only "
     "the three documented shapings, appends once before yielding; the newline strip is confined to the one-line case; "
-    "echo is guarded by a flag that is false for capturing kinds; $() never re-plumbs stderr.",
+    "echo is guarded by a flag that is false for capturing kinds; $() never re-plumbs stderr; the per-thread text "
+    "dispatcher flushes every write unconditionally and every raw echo is followed by a flush (two layers share "
+    "the capture pipe while an alias runs).",
     "note": "Decides the listed structural clauses, not the behaviour; marginal reach by design (DESIGN section 4).",
 }
